@@ -1,8 +1,14 @@
 (* Properties_C05.v — variables keep their declared type; bad stores are rejected without effect.
-   PARTIAL: proved for the conversion step shared by all store channels and for the assignment channel's
-   store sequence; the other channels (argument binding, RETURN, INPUT) run the same conversion and are
-   compared by the correspondence. *)
-From PE2 Require Import Eval Lemmas_Store Lemmas_Out.
+   Proved over the whole evaluator (every syntax tree, fuel and outcome, every store channel: assignment, BYVAL and BYREF binding,
+   RETURN, INPUT, READFILE, GETRECORD, FOR, record and array copy, pointer assignment): a variable keeps its declared type
+   (C05_variables_keep_their_declared_type) and the value it holds is always of the kind that type says -- nothing is ever
+   reinterpreted as another type (C05_values_are_never_reinterpreted); every value an expression yields is of the kind its result
+   type says (C05_results_have_their_type).  The conversion step shared by all channels admits exactly the three documented
+   conversions (C05_implicit_cast_table and the value lemmas).
+   PARTIAL: "a rejected store leaves the target's previous value intact" is proved for the assignment channel's store sequence
+   (C05_failed_store_no_effect); for argument binding, RETURN and INPUT it is compared by the correspondence.  The kind theorem
+   speaks of the kind (INTEGER, REAL, ..., enumerated, pointer, record), not of the NAME of a user type. *)
+From PE2 Require Import Eval Run Lemmas_Store Lemmas_Out Lemmas_DeepCopy Lemmas_ConstLogic Lemmas_ConstThm.
 Local Open Scope Z_scope.
 
 (* implicitCast always succeeds, keeps tag and payload in agreement, and makes the value's type equal to
@@ -60,3 +66,27 @@ Theorem C05_premise_is_invariant : forall ped repl lim fuel bl c s,
   (forall j x, nm_get j (s_cells (snd (run_block ped repl lim fuel bl c s))) = Some x -> (j < s_next (snd (run_block ped repl lim fuel bl c s)))%N).
 Proof. intros ped repl lim fuel bl c s H. exact (proj1 (run_block_keeps_cell_identity ped repl lim fuel bl c s H)). Qed.
 Print Assumptions C05_premise_is_invariant.
+
+(* over the whole evaluator: after any block -- whatever it is, however it ends -- run in a state that satisfies the heap
+   invariant (the initial state of every run does, and every block keeps it: the two theorems below), every variable that
+   exists holds a value of the kind its declared type says.  With C05_variables_keep_their_declared_type: the type is
+   permanent and the value is always of it *)
+Theorem C05_values_are_never_reinterpreted : forall ped repl lim fuel bl c s id cl, Inv s ->
+  nm_get id (s_cells (snd (run_block ped repl lim fuel bl c s))) = Some cl -> payload_kind (c_val cl) = dk (c_type cl).
+Proof. exact cells_hold_values_of_their_type. Qed.
+Print Assumptions C05_values_are_never_reinterpreted.
+
+(* a value that an expression or statement yields is of the kind its result type says, and the state left behind satisfies
+   the invariant again *)
+Theorem C05_results_have_their_type : forall ped repl lim fuel n c s r s' p, Inv s ->
+  ev_eval (evs_at ped repl lim fuel) n c s = (Ok r, s') -> r_val r = Some p -> payload_kind p = dk (r_type r) /\ Inv s'.
+Proof. exact results_are_of_their_type. Qed.
+Print Assumptions C05_results_have_their_type.
+
+Theorem C05_invariant_holds_initially : forall stdin fs rnd, Inv (init_state stdin fs rnd).
+Proof. exact Inv_init. Qed.
+Print Assumptions C05_invariant_holds_initially.
+
+Theorem C05_invariant_is_kept : forall ped repl lim fuel bl c s, Inv s -> Inv (snd (run_block ped repl lim fuel bl c s)).
+Proof. intros ped repl lim fuel bl c s H. exact (proj1 (run_block_keeps_constants ped repl lim fuel bl c s H)). Qed.
+Print Assumptions C05_invariant_is_kept.
